@@ -4,6 +4,7 @@
 package main
 
 import (
+	"sync/atomic"
 	"fmt"
 	"sort"
 	"strings"
@@ -236,9 +237,10 @@ func perms(n int) [][]int {
 	return out
 }
 
-// enumerate builds all cases for n devices. full: every feature takes every subset of its
-// positions; otherwise every feature is absent, placed once, or (twice) at two positions.
-func enumerate(n int, full bool, emit func(Case)) {
+// space describes all cases for n devices as (size, index -> case), so that the large spaces are
+// streamed instead of being kept in memory. full: every feature takes every subset of its
+// positions of size <= 2; otherwise every feature is absent or placed once.
+func space(n int, full bool) (int64, func(i int64) Case) {
 	editOpts := func() []int { // masks over n+1 positions
 		var o []int
 		for m := 0; m < 1<<(n+1); m++ {
@@ -265,10 +267,10 @@ func enumerate(n int, full bool, emit func(Case)) {
 		radix = append(radix, len(devOpts))
 	}
 	radix = append(radix, 2, 2)
-	total := hx.Product(radix)
 	ps := perms(n)
-	for i := int64(0); i < total; i++ {
-		d := hx.Digits(i, radix)
+	np := int64(len(ps))
+	return hx.Product(radix) * np, func(i int64) Case {
+		d := hx.Digits(i/np, radix)
 		place := map[string]int{}
 		for k, f := range editFeatures {
 			place[f] = editOpts[d[k]]
@@ -278,9 +280,7 @@ func enumerate(n int, full bool, emit func(Case)) {
 		}
 		place["specAnnotations"] = d[len(d)-2]
 		place["dottedClass"] = d[len(d)-1]
-		for _, p := range ps {
-			emit(Case{N: n, Place: place, Perm: p})
-		}
+		return Case{N: n, Place: place, Perm: ps[i%np]}
 	}
 }
 
@@ -299,47 +299,53 @@ func main() {
 		r.LoadReplay(&c)
 		hx.ReplayExit("C06", eval(c))
 	}
-	var cases []Case
-	emit := func(c Case) { cases = append(cases, c) }
-	enumerate(0, true, emit)
-	enumerate(1, true, emit)
-	enumerate(2, true, emit)
-	enumerate(3, r.Thorough(), emit)
 	// histories on one object: every ordered pair of the (n=2, identity order) cases that use at most
-	// one feature at one position, plus every case preceded by its neighbour in the enumeration
+	// one feature at one position, plus every third case preceded by its neighbour in the enumeration
 	var small []Case
-	for _, c := range cases {
-		if c.N == 2 && c.Perm[0] == 0 && rank(c) <= 12 {
-			small = append(small, c)
+	{
+		total, at := space(2, true)
+		for i := int64(0); i < total; i++ {
+			if c := at(i); c.Perm[0] == 0 && rank(c) <= 12 {
+				small = append(small, c)
+			}
 		}
 	}
-	base := len(cases)
-	for i := 1; i < base; i += 3 {
-		c := cases[i]
-		p := cases[i-1]
-		c.Prev = &p
-		cases = append(cases, c)
-	}
-	for i := range small {
-		for j := range small {
-			c, p := small[j], small[i]
-			c.Prev = &p
-			cases = append(cases, c)
-		}
-	}
-	r.Extra["same_object_histories"] = len(cases) - base
 	r.Rule = "every assignment of the 8 version-gated features to position sets (spec level / device k of n, n<=3; each feature at " +
 		map[bool]string{true: "<=2 positions", false: "<=1 position (n=3) or <=2 (n<=2)"}[r.Thorough()] + ") x every device permutation x " +
 		fmt.Sprintf("%d declared version strings; each edits block also carries an untyped mount and a host-path-less device node as controls; ", len(declaredDomain)) +
 		"then histories of two contents held by ONE Spec object (asked, overwritten in place, asked again): all ordered pairs of the single-feature cases and every third case after its neighbour; " +
 		"oracle = literal feature->version table, maximum by semver. Cases distinct by construction; non-trivial = at least one feature used"
 	r.Assumptions = []string{"v-prefixed declared versions are only checked for absence of panics (statement does not define them)", "more than 3 devices are not enumerated"}
-	r.ParallelL(int64(len(cases)), func(i int64, l *hx.Local) {
-		c := cases[i]
+	record := func(l *hx.Local, c Case) {
 		res := eval(c)
 		l.Record(res, func() any { return map[string]any{"devices": c.N, "order": c.Perm, "features": describe(c), "result": res.Outcome} })
+	}
+	var nCases, nHist atomic.Int64
+	for _, sp := range []struct {
+		n    int
+		full bool
+	}{{0, true}, {1, true}, {2, true}, {3, r.Thorough()}} {
+		total, at := space(sp.n, sp.full)
+		r.ParallelL(total, func(i int64, l *hx.Local) {
+			c := at(i)
+			record(l, c)
+			nCases.Add(1)
+			if i%3 == 1 {
+				p := at(i - 1)
+				c.Prev = &p
+				record(l, c)
+				nHist.Add(1)
+			}
+		})
+	}
+	r.ParallelL(int64(len(small)*len(small)), func(k int64, l *hx.Local) {
+		c, p := small[k%int64(len(small))], small[k/int64(len(small))]
+		c.Prev = &p
+		record(l, c)
+		nHist.Add(1)
 	})
+	r.Extra["same_object_histories"] = nHist.Load()
 	r.Extra["declared_versions_per_case"] = len(declaredDomain)
-	r.Extra["version_validations"] = int64(len(cases)) * int64(len(declaredDomain))
+	r.Extra["version_validations"] = (nCases.Load() + nHist.Load()) * int64(len(declaredDomain))
 	r.Finish()
 }
